@@ -201,6 +201,23 @@ def run(tier, seed, only=None):
         for (x0, x1, w0, w1, s0, s1, p0, p1, d0, d1) in grid2:
             check_conv([x0, x1], [w0, w1], [s0, s1], [p0, p1], [d0, d1], 1, 2, 2)
         check_conv_dtypes()
+        # a stride / padding / dilation / pool size that is not an integer is not a configuration the documented formula is defined for: it is
+        # rejected with an error, never silently truncated
+        x1 = rng.normal(size=(1, 1, 10))
+        w1 = rng.normal(size=(1, 1, 3))
+        bad_cfgs = [("conv_nd", dict(stride=1, padding=(1.7,))), ("conv_nd", dict(stride=(1.9,))), ("conv_nd", dict(stride=1, dilation=(1.5,))), ("conv_nd", dict(stride=1.5)), ("conv_nd", dict(stride=1, padding=1.7)),
+                    ("conv_nd", dict(stride=1, dilation=2.5)), ("conv_nd", dict(stride=[2.5])), ("conv_nd", dict(stride=np.array([1.5]))), ("max_pool", dict(pool=(2.5,), stride=1)), ("max_pool", dict(pool=(2,), stride=(1.5,))),
+                    ("max_pool", dict(pool=(2,), stride=1.5)), ("max_pool", dict(pool=(2,), stride=np.array([2.5])))]
+        for layer, kw in bad_cfgs:
+            desc = dict(layer=layer, configuration={k: repr(v) for k, v in kw.items()}, kind="non-integral configuration value")
+            b.count(f"{layer}[non-integral configuration]")
+            try:
+                out = nn.conv_nd(x1, w1, **kw) if layer == "conv_nd" else nn.max_pool(x1, **kw)
+            except Exception:
+                b.case(desc)
+                continue
+            b.fail(f"C16.layers.{layer}.accepts_invalid", desc, f"a non-integral value was accepted (silently truncated); returned shape {out.shape}")
+            b.case(desc)
     if not only or "pool" in only:
         for x0, w0, s0 in itertools.product(range(1, 7), range(1, 4), range(1, 4)):
             check_pool((2, x0), [w0], [s0])
